@@ -134,6 +134,20 @@ func (r *runner) evaluate() {
 			r.label("same-doc-written-by-2+-goroutines")
 		}
 	}
+	if c.P2P {
+		r.label("p2p")
+	}
+	if c.Branchable {
+		r.label("branchable")
+	}
+	for _, cl := range r.calls {
+		if (cl.Op.K == kSetRep || cl.Op.K == kDelRep) && cl.Status == stOK {
+			r.label("replicator-changed")
+		}
+		if cl.Op.K == kSinkDown {
+			r.label("replicator-peer-stopped")
+		}
+	}
 	if c.SharedTxn {
 		r.label("shared-txn")
 		r.label([]string{"txn-commit-ok", "txn-commit-conflict", "txn-commit-error"}[r.commitStatus])
